@@ -875,7 +875,12 @@ class _Keyed:
         exact = (nset - pset, pset - nset)
         if rec == "-":
             if exact != (frozenset(), frozenset()):
-                bad.append("cycle %d: the result changed from %s to %s but nothing was recorded" % (self.ncyc - 1, _fmt(pset), _fmt(nset)))
+                # the union became the (valid) EMPTY set while the published result silently lost its validity: the new
+                # root is a combiner / element output that never became valid (an empty set written to a fresh set output
+                # does not validate it) and no removal is published.  Known finding C11-keyed-empty-invalid - only this
+                # exact shape (result not valid, union empty, previous published set non-empty, nothing recorded).
+                tag = "[C11-keyed-empty-invalid] " if (not got_valid and not nset and pset) else ""
+                bad.append(tag + "cycle %d: the result changed from %s to %s but nothing was recorded" % (self.ncyc - 1, _fmt(pset), _fmt(nset)))
         else:
             added, removed = _parse_delta(rec)
             if new is None:
